@@ -606,6 +606,8 @@ where
         if self.time.real() + self.dt.real() >= self.end.real() {
             self.dt = self.end - self.time;
             self.runge_kutta(1)?;
+            // time + (end - time) need not round to end
+            self.time = self.end;
             return Ok((self.time.real(), self.prev_values.back().unwrap().1.clone()));
         }
 
